@@ -99,9 +99,20 @@ const (
 	siteNoRoute
 	siteNoMethod
 	siteOptions
+	// the route handler registers routes at run time and a middleware constructor (user code that
+	// runs while the route is being built) panics
+	siteHandleCtor
+	siteUpdateCtor
+	siteTxnCtor
+	siteNewRouteCtor
+	nSites
 )
 
-var siteNames = [...]string{"route handler", "inner route middleware", "no-route handler", "no-method handler", "options handler"}
+var siteNames = [...]string{"route handler", "inner route middleware", "no-route handler", "no-method handler", "options handler",
+	"middleware constructor during Router.Handle called by the route handler", "middleware constructor during Router.Update called by the route handler",
+	"middleware constructor during Txn.Handle inside Updates called by the route handler", "middleware constructor during Router.NewRoute called by the route handler"}
+
+func routeSite(site int) bool { return site <= siteRouteMw || site >= siteHandleCtor }
 
 var sensitive = []string{"Authorization", "Proxy-Authorization", "Cookie", "Set-Cookie", "X-CSRF-Token", "X-Vault-Token"}
 
@@ -150,6 +161,32 @@ func evalCase(cs Case) (class, msg string) {
 		panic(thrown)
 	}
 	ok := func(c fox.Context) { c.Writer().WriteHeader(204) }
+	ctor := func(next fox.HandlerFunc) fox.HandlerFunc { panic(thrown) }
+	dyn := func(c fox.Context) {
+		switch cs.Prog {
+		case progHeader:
+			c.Writer().WriteHeader(202)
+		case progBody:
+			c.Writer().WriteHeader(202)
+			c.Writer().Write([]byte("partial"))
+		case progFlush:
+			c.Writer().FlushError()
+		}
+		switch cs.Site {
+		case siteHandleCtor:
+			c.Fox().Handle("GET", "/dyn", ok, fox.WithMiddleware(ctor))
+		case siteUpdateCtor:
+			c.Fox().Update("GET", "/fine", ok, fox.WithMiddleware(ctor))
+		case siteTxnCtor:
+			c.Fox().Updates(func(txn *fox.Txn) error {
+				txn.Handle("GET", "/dyn2", ok)
+				_, err := txn.Handle("GET", "/dyn", ok, fox.WithMiddleware(ctor))
+				return err
+			})
+		case siteNewRouteCtor:
+			c.Fox().NewRoute("/dyn", ok, fox.WithMiddleware(ctor))
+		}
+	}
 	rec := fox.CustomRecoveryWithLogHandler(cap, fox.DefaultHandleRecovery)
 	opts := []fox.GlobalOption{fox.WithMiddlewareFor(fox.AllHandlers, rec), fox.WithNoMethod(true), fox.WithAutoOptions(true)}
 	switch cs.Site {
@@ -171,6 +208,8 @@ func evalCase(cs Case) (class, msg string) {
 		f.Handle("GET", "/boom/{id}/*{rest}", ok, fox.WithMiddleware(func(next fox.HandlerFunc) fox.HandlerFunc {
 			return func(c fox.Context) { boom(c); next(c) }
 		}))
+	case siteHandleCtor, siteUpdateCtor, siteTxnCtor, siteNewRouteCtor:
+		f.Handle("GET", "/boom/{id}/*{rest}", dyn)
 	default:
 		f.Handle("GET", "/boom/{id}/*{rest}", ok)
 	}
@@ -257,7 +296,7 @@ func evalCase(cs Case) (class, msg string) {
 		if !strings.Contains(r, "ordinary-value") || !strings.Contains(r, "lowercase-ordinary") {
 			return "record-content", fmt.Sprintf("ordinary headers are missing from the diagnostic record: %s", desc)
 		}
-		if cs.Site <= siteRouteMw {
+		if routeSite(cs.Site) {
 			if !strings.Contains(r, "@route=/boom/{id}/*{rest}") || !strings.Contains(r, "id=ID42") || !strings.Contains(r, "rest=re/st") {
 				return "record-content", fmt.Sprintf("the diagnostic record does not name the route and its parameters: %s\n%s", desc, r)
 			}
@@ -280,7 +319,11 @@ func evalCase(cs Case) (class, msg string) {
 		}
 	}()
 	if lockErr != nil {
-		return "unusable-after", fmt.Sprintf("a later write failed (%v): %s", lockErr, desc)
+		cls := "unusable-after"
+		if strings.Contains(fmt.Sprint(lockErr), "held mutex") {
+			cls = "lock-not-released"
+		}
+		return cls, fmt.Sprintf("a later write failed (%v): %s", lockErr, desc)
 	}
 	return "", ""
 }
@@ -364,11 +407,11 @@ func run(c *mc.Ctx, r *mc.Result) {
 			hs = append(hs, h)
 		}
 	}
-	r.Bounds["space"] = fmt.Sprintf("%d panic values x 4 response progress states x 5 panic sites x %d request header spellings (6 sensitive names, each canonical / as documented / lower / upper / mixed, + none); Updates and View panicking after every prefix of a 3-operation body", len(pvs), len(hs))
+	r.Bounds["space"] = fmt.Sprintf("%d panic values x 4 response progress states x 9 panic sites (5 handler kinds + a middleware constructor panicking during Router.Handle / Router.Update / Txn.Handle in Updates / NewRoute issued by a handler) x %d request header spellings (6 sensitive names, each canonical / as documented / lower / upper / mixed, + none); Updates and View panicking after every prefix of a 3-operation body", len(pvs), len(hs))
 	idx := 0
 	for vi := range pvs {
 		for prog := 0; prog <= progFlush; prog++ {
-			for site := 0; site <= siteOptions; site++ {
+			for site := 0; site < nSites; site++ {
 				for _, h := range hs {
 					idx++
 					if !c.Mine(idx) {
@@ -403,7 +446,7 @@ func init() {
 	mc.Register(&mc.Check{
 		ID:    "C15",
 		Level: "fault_enumeration",
-		Rule:  "complete product panic value x response progress at the time of the panic x panic site (handler kinds and scopes) x spelling of each credential-bearing request header, plus a panic after every prefix of an Updates / View function body; every case is a distinct fault; all are non-trivial (a panic is injected in each)",
+		Rule:  "complete product panic value x response progress at the time of the panic x panic site (handler kinds and scopes, user code run while a handler registers routes) x spelling of each credential-bearing request header, plus a panic after every prefix of an Updates / View function body; every case is a distinct fault; all are non-trivial (a panic is injected in each)",
 		Assumptions: []string{
 			"a panic value that merely wraps a broken-connection *net.OpError is not decided by the statement (abstained for the 500 rule only)",
 			"lock release is decided by the shim (locking a held mutex panics instead of hanging)",
